@@ -35,7 +35,7 @@ PROFILES = {
 }
 BLOCKSIZES = (1024, 4096)
 # deviations of the pinned tree that are modelled literally (DESIGN 3.5); all FALSE = repaired behaviour
-DEV = {"DevMkdirNoNlinkRule": "TRUE", "DevKillLeaksEaBlock": "FALSE"}
+DEV = {"DevMkdirNoNlinkRule": "FALSE", "DevKillLeaksEaBlock": "FALSE"}
 
 FT = {"mkdir": 2, "create": 1, "symlink": 7}
 LOCK = threading.Lock()
@@ -355,6 +355,8 @@ class Gen:
             if k < 0.89:
                 if not live or not self.raw_ok: continue
                 e = r.choice(live)
+                if o.ino[e[2]][0] == 2 and r.random() < 0.5:          # bring a directory to the dir_nlink limit: the next mkdirs in it cross it
+                    return "setlinks %d %d" % (e[2], r.choice([64999, 65000, 65000]))
                 return "setlinks %d %d" % (e[2], r.choice([0, 1, 2, 3, o.refs()[e[2]]]))
             if k < 0.94:
                 if not files or self.prof == "inline": continue
@@ -582,21 +584,71 @@ def universe(tier, rng):
     for i in range(ndbg):
         p, b = combos[(i * 5 + 1) % len(combos)]
         specs.append(dict(prof=p, bs=b, front="dbg", seed=rng.getrandbits(31), nsteps=max(8, nsteps // 2), raw=1 if i % 3 == 1 else 0, big=0))
+    # stretched behaviours (scripted): real leaf limits at 1 KiB with 255-byte names (3 per leaf, 123 per root, 126 per node)
+    if tier == "quick":
+        bigs = [("dxcsum", 1024, "lib", 363, 12, 255), ("dx", 1024, "dbg", 120, 10, 255)]
+    else:
+        bigs = [("dxcsum", 1024, "lib", 363, 40, 255), ("dx", 1024, "dbg", 366, 40, 255), ("nlink", 1024, "lib", 372, 30, 255),
+                ("noft", 1024, "dbg", 200, 40, 120), ("linear", 1024, "lib", 200, 30, 255), ("inline", 1024, "lib", 150, 30, 255),
+                ("dxcsum", 4096, "lib", 400, 60, 255), ("dx", 4096, "dbg", 400, 60, 120), ("inline", 4096, "dbg", 300, 40, 255),
+                ("dxcsum", 1024, "dbg", 300, 40, 8), ("linear", 4096, "dbg", 300, 30, 255), ("nlink", 4096, "lib", 400, 40, 8)]
+    for p, b, fe, n1, n2, ln in bigs:
+        sc = big_script(n1, n2, ln)
+        specs.append(dict(prof=p, bs=b, front=fe, seed=1, nsteps=len(sc), raw=0, big=1, script=sc))
     return specs
+
+
+def big_script(n1, n2, ln, parent=2):
+    """stretch: one abstract Create becomes a run of n1 creates (observed every 40), e2fsck -fyD, n2 single creates with
+    removals in between, e2fsck -fyD, e2fsck -fn; the names are ln bytes long"""
+    def nm(i): return ("b%05d_" % i).ljust(ln, "y")[:max(ln, 7)]
+    steps = [{"kind": "step", "ops": ["mkdir %d big" % parent]}]
+    i = 0
+    while i < n1:
+        k = min(40, n1 - i)
+        steps.append({"kind": "step", "ops": ["create 12 %s 0" % nm(i + j) for j in range(k)]}); i += k
+    steps.append({"kind": "fsckD", "ops": []})
+    for j in range(n2):
+        steps.append({"kind": "step", "ops": ["create 12 %s 0" % nm(n1 + j)]})
+        if j % 5 == 4:
+            steps.append({"kind": "step", "ops": ["rm 12 %s" % nm(j * 3)]})
+    steps += [{"kind": "fsckD", "ops": []}, {"kind": "fsckn", "ops": []}]
+    return steps
 
 
 def to_lines(beh):
     return [json.dumps(x, separators=(",", ":")) for x in beh["lines"]]
 
 
+def features(beh):
+    """what a behaviour exercised: leaf splits / index growth of htree directories, dirent coalescing, inode release"""
+    f = dict(freed=0, coalesce=0, split=0, grow=0, nodesplit=0, expand=0, idxlink=0, rehash=0)
+    shape = {}
+    for x in beh["lines"]:
+        if x["e"] == "fsckD":
+            f["rehash"] += 1
+        f["freed"] += len(x.get("gone", []))
+        adds = any(o["op"] in ("mkdir", "create", "symlink", "mknod", "link", "hlink") for o in x["ops"])
+        dels = any(o["op"] in ("unlink", "rm", "rmdir") for o in x["ops"])
+        for d in x["dirs"]:
+            nb, lv, nn = len(d["blks"]), d["dx"]["lv"], len(d["dx"]["nodes"])
+            old = shape.get(d["ino"])
+            if old and x["e"] == "step":
+                if dels: f["coalesce"] += 1
+                if adds and d["idx"] and old[3]:
+                    f["idxlink"] += 1
+                    if nb > old[0]: f["split"] += 1
+                    if lv > old[1]: f["grow"] += 1
+                    if nn > old[2] and lv == old[1]: f["nodesplit"] += 1
+                if adds and not d["idx"] and nb > old[0]: f["expand"] += 1
+            shape[d["ino"]] = (nb, lv, nn, d["idx"])
+    return f
+
+
 def nontrivial(beh):
     """>= 1 leaf split or dirent coalescing, and >= 1 removal that frees an inode"""
-    freed = any(x.get("gone") for x in beh["lines"][1:])
-    coalesce = False
-    for x in beh["lines"][1:]:
-        if any(o["op"] in ("unlink", "rm", "rmdir") for o in x["ops"]) and x["dirs"]:
-            coalesce = True
-    return freed and coalesce
+    f = features(beh)
+    return f["freed"] > 0 and (f["coalesce"] > 0 or f["split"] > 0)
 
 
 def run(tier):
@@ -617,7 +669,7 @@ def run(tier):
         specs = universe(tier, rng)
         t0 = time.time()
         with cf.ThreadPoolExecutor(max_workers=JOBS) as ex:
-            behs = list(ex.map(lambda s: run_behaviour(env, s), specs))
+            behs = list(ex.map(lambda s: run_behaviour(env, {k: v for k, v in s.items() if k != "script"}, script=s.get("script")), specs))
         ev.cov["wall_run_s"] = round(time.time() - t0, 1)
         for bh in behs:
             if bh["crash"]:
@@ -646,9 +698,13 @@ def run(tier):
         ev.cov["trace_lines_validated"] = total_lines
         ev.cov["traces_validated_against_impl"] = len(behs) - nfail
         ev.cov["evaluations"] = len(behs)
+        tot = {}
         for bh in behs:
+            for k, v in features(bh).items():
+                tot[k] = tot.get(k, 0) + v
             if nontrivial(bh):
-                ev.nontrivial(json.dumps(bh["steps"], sort_keys=True))
+                ev.nontrivial(hashlib.sha1(json.dumps(bh["steps"], sort_keys=True).encode()).hexdigest())
+        ev.cov["exercised"] = tot
         ev.cov["rule"] = ("histories of namespace operations chosen (seeded) from the observed state, run through libext2fs (harness/dirdrv.c) and debugfs -w -f "
                           "on 6 feature profiles x {1k,4k}, interleaved with e2fsck -fyD, ending in e2fsck -fn; non-trivial = >= 1 removal that coalesces/clears "
                           "a directory slot and >= 1 removal that frees an inode; distinct by operation sequence")
